@@ -253,9 +253,11 @@ def canon_coords(text: str) -> str:
 _NODE_SPLIT = re.compile(r"\|")
 
 
-def normalise_graph_dump(text: str) -> str:
+def normalise_graph_dump(text: str, keep_node_order: bool = False) -> str:
     """Order-insensitive form of every graph dump inside `text` (nodes sorted by label, neighbours
-    sorted): the observable level for properties that do not speak about listing order."""
+    sorted): the observable level for properties that do not speak about listing order.  With
+    `keep_node_order` only the neighbour lists are sorted: the level for properties that speak about the
+    order of atoms but not about the order in which an atom's bonds are stored."""
     def norm(m):
         body = m.group(1)
         if not body:
@@ -266,7 +268,8 @@ def normalise_graph_dump(text: str) -> str:
             # a '}' always closes the attribute dictionary right before ':'
             nbs = sorted(nb.split(",")) if nb else []
             nodes.append((int(re.match(r"-?\d+", head).group()), head + ":" + ",".join(nbs)))
-        nodes.sort()
+        if not keep_node_order:
+            nodes.sort()
         return "G[" + "|".join(n for _, n in nodes) + "]"
     return re.sub(r"G\[([^\]]*)\]", norm, text)
 
